@@ -258,6 +258,26 @@ pub fn write_bytes_chunky(lib: &GdsLibrary, k: usize) -> Result<Vec<u8>, ()> {
         Err(_) => Err(()),
     }
 }
+/// a destination that fails (device full, broken pipe) once `limit` bytes have been delivered
+pub struct FaultySink { pub buf: Vec<u8>, pub limit: usize }
+impl std::io::Write for FaultySink {
+    fn write(&mut self, b: &[u8]) -> std::io::Result<usize> {
+        let room = self.limit.saturating_sub(self.buf.len());
+        if room == 0 && !b.is_empty() {
+            return Err(std::io::Error::new(std::io::ErrorKind::Other, "no space left on device"));
+        }
+        let n = b.len().min(room);
+        self.buf.extend_from_slice(&b[..n]);
+        Ok(n)
+    }
+    fn flush(&mut self) -> std::io::Result<()> { Ok(()) }
+}
+/// `GdsLibrary::write` into a destination that fails after `limit` bytes: (what `write` returned, what arrived)
+pub fn write_bytes_faulty(lib: &GdsLibrary, limit: usize) -> (bool, Vec<u8>) {
+    let mut sink = FaultySink { buf: Vec::new(), limit };
+    let ok = lib.write(&mut sink).is_ok();
+    (ok, sink.buf)
+}
 pub fn op_write(args: &[Sexp]) -> String {
     let lib = match args.get(0).and_then(p_lib) {
         Some(l) => l,
